@@ -117,7 +117,7 @@ def main():
                     idx.append(i)
             mtags = collections.Counter()
             fl, errors = C.coq_run_cases(mod.IMPORTS, mod.CASE_TYPE, mod.RUN, mod.EQB, lits, scratch, prop,
-                                         tagf=getattr(mod, "COQ_TAGF", None), tagc=mtags)
+                                         tagf=getattr(mod, "COQ_TAGF", None), tagc=mtags, chunk=getattr(mod, "CHUNK", 250))
             failing = [idx[j] for j in fl]
             names = getattr(mod, "COQ_TAG_NAMES", [])
             for k, n_ in mtags.items():
